@@ -119,6 +119,11 @@ type Options struct {
 	MaxDelta        int // delta cycles per Eval (default 1000)
 	MaxSettle       int // passes over the combinational nodes (default 1000)
 	MaxLoop         int // iterations of one for-loop (default 1<<22)
+	// ImplicitPortNets declares a 1-bit wire for an identifier that is not
+	// declared and is used in an instance port connection, as IEEE 1364 does
+	// (default_nettype wire), instead of reporting a DesignError. A warning is
+	// recorded for every net created this way.
+	ImplicitPortNets bool
 }
 
 // Elaborate flattens the hierarchy below top with default options and
@@ -851,6 +856,10 @@ func (e *elab) instantiate(sc *scope, inst *Instance, depth int) {
 		e.s.conns = append(e.s.conns, conn)
 		undeclared := false
 		walkIdents(c.X, func(id *Ident) {
+			if sc.lookup(id.Name) == nil && e.opts.ImplicitPortNets {
+				e.declare(sc, &Decl{Line: id.Line, Kind: "wire", Names: []DeclName{{Name: id.Name}}}, nil, false)
+				e.s.warnings = append(e.s.warnings, fmt.Sprintf("implicit 1-bit net '%s' created for a port connection of instance '%s'", id.Name, inst.Name))
+			}
 			if sc.lookup(id.Name) == nil {
 				undeclared = true
 				e.errf(sc, ClassUndeclared, id.Line, "identifier '%s' in a port connection of instance '%s' is not declared (implicit nets are not created)", id.Name, inst.Name)
